@@ -156,6 +156,49 @@ def alpha(node: ast.AST, fn: ast.AST | None, anonymous: bool = False) -> str:
         return norm(node)
 
 
+def canonicalise(tree: ast.Module) -> int:
+    """Undo the "extract the test into a variable" refactoring so that every analysis sees one form:
+
+        v = <expr>            if <expr>:
+        if v: …       ==>         …            (also `if not v`, `while`-free, `v` used nowhere else in the function)
+
+    The two statements must be adjacent and `v` must have no other use, so evaluation order and meaning are unchanged.
+    Returns the number of rewrites."""
+    count = 0
+    for fn in [n for n in ast.walk(tree) if isinstance(n, (ast.FunctionDef, ast.AsyncFunctionDef))]:
+        uses: dict = {}
+        for n in ast.walk(fn):
+            if isinstance(n, ast.Name):
+                uses[n.id] = uses.get(n.id, 0) + 1
+            elif isinstance(n, (ast.Nonlocal, ast.Global)):
+                for nm in n.names:
+                    uses[nm] = uses.get(nm, 0) + 10
+        for blk in ast.walk(fn):
+            for fld in ("body", "orelse", "finalbody"):
+                seq = getattr(blk, fld, None)
+                if not (isinstance(seq, list) and len(seq) >= 2 and isinstance(seq[0], ast.stmt)):
+                    continue
+                i = 0
+                while i < len(seq) - 1:
+                    a, b = seq[i], seq[i + 1]
+                    if isinstance(a, ast.Assign) and len(a.targets) == 1 and isinstance(a.targets[0], ast.Name) and isinstance(b, ast.If):
+                        v = a.targets[0].id
+                        t = b.test
+                        neg = isinstance(t, ast.UnaryOp) and isinstance(t.op, ast.Not)
+                        core = t.operand if neg else t
+                        if isinstance(core, ast.Name) and core.id == v and uses.get(v, 0) == 2:
+                            new_test = a.value if not neg else ast.UnaryOp(op=ast.Not(), operand=a.value)
+                            ast.copy_location(new_test, t)
+                            b.test = new_test
+                            del seq[i]
+                            count += 1
+                            continue
+                    i += 1
+    if count:
+        ast.fix_missing_locations(tree)
+    return count
+
+
 class Program:
     def __init__(self, root: pathlib.Path | None = None, overlay: dict | None = None):
         """overlay: {relative path: source text} replaces file contents in memory (self-test variants)."""
@@ -183,6 +226,7 @@ class Program:
                 tree = ast.parse(src, rel)
             except SyntaxError as exc:
                 raise AnalysisError(f"{rel} does not parse: {exc}") from exc
+            canonicalise(tree)
             self.modules[rel] = tree
             self.files[rel] = rel
             self.sources[rel] = src
